@@ -107,6 +107,11 @@ def check_C09(run):
     # unbounded histories / sizes / block sizes for the counting abstraction: inductive invariant with Apalache
     ind = [V.apalache(run.scratch, "EncoderInd", "IndInv", init="Init", length=0, cinit="CInit"),
            V.apalache(run.scratch, "EncoderInd", "IndInv", init="IndInit", length=1, cinit="CInit")]
+    # one FileWriter, several destinations: the marker is the writer's (the per-header-marker defect cfg must break it)
+    run.model("MirrorWriter")
+    v = V.run_tlc(run.scratch, "MirrorWriter", "MirrorWriter_defect", workers=4, timeout=600)
+    if "Invariant EveryDestinationValid is violated" not in v["out"]:
+        raise V.Infra("vacuity check failed: the MirrorWriter model accepts a sync marker drawn anew by every WriteHeader")
     cov, rejected, out = check_encoder(run, "C09")
     cov["apalache_inductive_invariant"] = ind
     return V.finish("C09", run.tier, run.seed, "model_checking", cov, rejected, out, run.t0, TRUSTED + ["flate/snappy/crc32 as decompression oracle"])
